@@ -110,7 +110,9 @@ fn main() -> Result<(), Box<dyn std::error::Error>> {
     let mut f = zstd::Decoder::new(File::open(args.model)?)?;
     let model = Model::read(&mut f)?;
     let mut predictor = Predictor::new(model, args.predict_tags)?;
-    if args.tag_scores {
+    // Tag scores only exist when tags are predicted.
+    let tag_scores = args.tag_scores && args.predict_tags;
+    if tag_scores {
         predictor.store_tag_scores(true);
     }
 
@@ -138,11 +140,11 @@ fn main() -> Result<(), Box<dyn std::error::Error>> {
                 if args.scores {
                     print_scores(&s, &mut out)?;
                 }
+                if tag_scores {
+                    print_tag_scores(&s, &mut out)?;
+                }
             } else {
                 out.write_all(b"\n")?;
-            }
-            if args.tag_scores {
-                print_tag_scores(&s, &mut out)?;
             }
             if is_tty {
                 out.flush()?;
@@ -170,11 +172,11 @@ fn main() -> Result<(), Box<dyn std::error::Error>> {
                 if args.scores {
                     print_scores(&s, &mut out)?;
                 }
+                if tag_scores {
+                    print_tag_scores(&s, &mut out)?;
+                }
             } else {
                 out.write_all(b"\n")?;
-            }
-            if args.tag_scores {
-                print_tag_scores(&s, &mut out)?;
             }
             if is_tty {
                 out.flush()?;
